@@ -16,7 +16,12 @@ type targetReq struct {
 	Dst     string            `json:"dst"`
 	Sources []string          `json:"sources"`
 	Target  int64             `json:"target"`
+	// Reuse: pass the very slice object of the previous request again (a caller that keeps one
+	// []string of "$VAR/..." sources and calls repeatedly while the environment changes)
+	Reuse bool `json:"reuse"`
 }
+
+var targetLastSources []string
 
 type targetRes struct {
 	Ans   bool                 `json:"ans"`
@@ -43,6 +48,11 @@ func init() {
 		for k, v := range q.Env {
 			os.Setenv(k, v)
 			targetEnvSet = append(targetEnvSet, k)
+		}
+		if q.Reuse && len(targetLastSources) == len(q.Sources) {
+			q.Sources = targetLastSources
+		} else {
+			targetLastSources = q.Sources
 		}
 		var res targetRes
 		var err error
